@@ -60,6 +60,8 @@ import (
 	"golang.org/x/tools/go/ssa"
 )
 
+var callDepth int
+
 type continuation int
 
 const (
@@ -111,6 +113,7 @@ type frame struct {
 	panicking        bool
 	panic            interface{}
 	phitemps         []value // temporaries for parallel phi assignment
+	depth            int
 }
 
 func (fr *frame) get(key ssa.Value) value {
@@ -578,11 +581,18 @@ func callSSA(i *interpreter, caller *frame, callpos token.Pos, fn *ssa.Function,
 	}
 	prevFr := curFr
 	curFr = fr
+	callDepth++
+	fr.depth = callDepth
+	if callDepth > 20000 {
+		callDepth = 0
+		panic(engineAbort{"BOUND-EXCEEDED: interpreter call depth above 20000 (unbounded recursion in the target?)"})
+	}
 	for fr.block != nil {
 		runFrame(fr)
 		curFr = fr
 	}
 	curFr = prevFr
+	callDepth--
 	// Destroy the locals to avoid accidental use after return.
 	for i := range fn.Locals {
 		fr.locals[i] = bad{}
@@ -614,6 +624,8 @@ func runFrame(fr *frame) {
 			return // let interpreter crash
 		}
 		fr.panicking = true
+		callDepth = fr.depth
+		curFr = fr
 		fr.panic = classifyPanic(recover())
 		if fr.i.mode&EnableTracing != 0 {
 			fmt.Fprintf(os.Stderr, "Panicking: %T %v.\n", fr.panic, fr.panic)
